@@ -119,6 +119,20 @@ def main(ck, tier, w):
                 ck.violation('%s, standard output on a %s: lines for payloads with control characters differ from the payloads (exit %d): got %r' %
                              (coin, mode, r.rc, chains.strip_log(r.out)[:300]), {'coin': coin, 'stdout': mode, 'payloads_hex': [p.hex() for p in ctl],
                                                                                'observed': r.brief(), 'tags': []})
+    # "<opcode> <push>" for every opcode that is not OP_RETURN prints nothing (opcode classes of a library group reserved and
+    # undefined opcodes with OP_RETURN; the statement does not)
+    for coin in ('litecoin', 'bitcoin'):
+        ops = [o for o in range(256) if o not in (0x4c, 0x4d, 0x4e) and not 1 <= o <= 75]
+        blocks = chains.std_chain(3, coin, txs_fn=lambda h, c: [btc.coinbase(h, None, outs=[{'val': 1, 'spk': bytes([o]) + btc.push(b'op %02x' % o)} for o in ops[h::3]])])
+        d = datadir.simple_dir(w.sub('dd'), blocks, coin).write()
+        exp = b''.join(x for x in ref.opreturn_expected(list(enumerate(blocks)), coin) if x is not None)
+        r = run.run_parser(d, 'opreturn', coin=coin)
+        ck.evals()
+        ck.distinct(('every-opcode', coin))
+        if r.rc != 0 or chains.strip_log(r.out) != exp:
+            ck.violation('%s: outputs "<opcode> <push>" for every opcode: exit %d, printed lines %r, expected %r' % (coin, r.rc, chains.strip_log(r.out)[-300:], exp[-200:]),
+                         {'coin': coin, 'observed': r.brief(), 'tags': []})
+
     # chain order inside a block, whatever the sizes: small lines before, between and after payloads of 300 000 and 1 100 000 bytes
     for coin in ('bitcoin', 'namecoin'):
         seq = [b'first', b'A' * 300000, b'third', b'B' * 1100000, b'fifth', b'C' * 262017, b'D' * 262016, b'last']
